@@ -56,6 +56,27 @@ let sop_of c =
   | ":fmt" -> let i = nt c in let x = b c in QFmt (i, x, b c)
   | ":rep" -> let i = nt c in let x = b c in QRep (i, x, nt c)
   | ":plus" -> let i = nt c in let j = nt c in QPlus (i, j, nt c)
+  (* the result object obj[3], constructed directly from the returned value *)
+  | ":rnew" -> QRNew (b c)
+  | ":rcopy" -> QRCopy (nt c)
+  | ":rsub" -> let j = nt c in let p = n_tok (next c) in QRSub (j, p, n_tok (next c))
+  | ":rsub1" -> let j = nt c in QRSub (j, n_tok (next c), n_of_hex "ffffffffffffffff")     (* subString(b) = subString(b, npos) *)
+  | ":rft" -> let j = nt c in let c1 = n_tok (next c) in QRFromTill (j, c1, n_tok (next c))
+  | ":rlow" -> QRLow (nt c)
+  | ":rprt" -> QRPrt (nt c)
+  | ":rplus" -> let j = nt c in QRPlus (j, nt c)
+  | ":rfmt" -> let x = b c in QRFmt (x, b c)
+  | ":rrep" -> let x = b c in QRRep (x, nt c)
+  | ":rord" -> QROrd (n_tok (next c))
+  | ":rmask" -> let v = n_tok (next c) in let m = n_tok (next c) in QRMask (v, m, n_tok (next c))
+  | ":rbin" -> QRBin (b c)
+  | ":rsplit" -> let j = nt c in let d = n_tok (next c) in QRSplit (j, d, nt c)
+  (* observers *)
+  | ":size" -> QSize (nt c)
+  | ":at" -> let i = nt c in QAt (i, n_tok (next c))
+  | ":cmp" -> let i = nt c in QCmp (i, nt c)
+  | ":cpb" -> let i = nt c in QCpb (i, nt c)
+  | ":find" -> let i = nt c in let st = n_tok (next c) in QFind (i, st, n_tok (next c))
   | t -> raise (Bad ("seq op " ^ t))
 let scn_of c =
   match peek c with
